@@ -243,6 +243,27 @@ Section AggProofs.
   Proof. intros L1 L2 P. rewrite !stats_answer_is_spec. apply agg_perm. auto. Qed.
 End AggProofs.
 
+(* ---------- ingest-time window ---------- *)
+Lemma skipn_app_exact : forall (A : Type) (a b : list A), skipn (length a) (a ++ b) = b.
+Proof. induction a; simpl; auto. Qed.
+
+Lemma cw_last_append : forall c r, cw_last (cw_append c r) = r.
+Proof. intros c r. unfold cw_last, cw_append. simpl. apply skipn_app_exact. Qed.
+
+(* after ANY history of the column in the block, the window handed to the ingest-time evaluator is exactly
+   the encoding of the record just written: the value if the event has the column, the one back-fill byte if not *)
+Theorem window_is_last_record : forall xs x, cw_last (cw_run (xs ++ [x])) = rec_of x.
+Proof.
+  intros xs x. unfold cw_run. rewrite fold_left_app. simpl. unfold cw_step. apply cw_last_append.
+Qed.
+
+(* the assignment in the back-fill loop is needed: without it an event that lacks the column is evaluated
+   against the last earlier value of the column followed by back-fill bytes ({status:500},{} -> 500 again) *)
+Theorem window_needs_start_update :
+  exists xs, cw_last (cw_run_nostart xs) <> rec_of (last xs None)
+    /\ firstn 9 (cw_last (cw_run_nostart xs)) = enc_cell (WInt 500).
+Proof. exists [Some (WInt 500); None]. split; [vm_compute; discriminate | vm_compute; reflexivity]. Qed.
+
 (* ---------- range queries on the block range index: layout invariance, composed ---------- *)
 From SigM Require Import Prune.
 From SigP Require Import PruneProofs.
